@@ -25,10 +25,12 @@ Guards(e) ==
                          /\ Oks(e, "botp_use") <= 1>>,
      <<"G_C16_NoRace", ~e.race>>, <<"G_C10_NoPanic", ~e.panic>>}
 TInit == Init /\ l = 1 /\ viol = {}
+\* several operators inject the right passphrase at once: as if one after another, exactly one of them unseals
+UnsealGuards(e) == {<<"G_C16_Serializable", e.ok200 = 1 /\ e.cas = e.casOnce>>}
 TNext == /\ l <= Len(TraceLog)
          /\ LET e == TraceLog[l]
-                bad == Failed(Guards(e))
-            IN viol' = IF bad = {} THEN viol ELSE viol \cup {<<l, "Run", bad>>}
+                bad == IF e.ev = "UnsealRound" THEN Failed(UnsealGuards(e)) ELSE IF e.ev = "Soak" THEN {} ELSE Failed(Guards(e))
+            IN viol' = IF bad = {} THEN viol ELSE viol \cup {<<l, e.ev, bad>>}
          /\ l' = l + 1 /\ UNCHANGED vars
 TSpec == TInit /\ [][TNext]_<<vars, l, viol>>
 Report == (l = Len(TraceLog) + 1) => PrintT(<<"VIOL", ToJson([n |-> l - 1, viol |-> viol])>>)
